@@ -181,6 +181,7 @@ var NestFamilies = []NestFamily{
 		}
 		return "SELECT 1 FROM " + rep("(SELECT 1 FROM ", n)
 	}},
+	{"commajoins", "query", func(n int, c bool) string { return "SELECT 1 FROM " + rep("t, ", n) + "t" }},
 	{"minus", "expr", func(n int, c bool) string { return rep("- ", n) + "1" }},
 	{"not", "expr", func(n int, c bool) string { return rep("NOT ", n) + "a" }},
 	{"tilde", "expr", func(n int, c bool) string { return rep("~", n) + "1" }},
